@@ -668,6 +668,11 @@ fn run_case(c: &Case, rep: &mut CaseReport) -> Verdict {
             rep.inconclusive = Some("watchdog".into());
             Verdict::Discard("watchdog".into())
         }
+        // a spawn / protocol problem of the harness itself (e.g. its binary replaced while running) is not a verdict
+        Err(Problem::Db(DbError::Proto(e))) => {
+            rep.inconclusive = Some(format!("harness: {}", e));
+            Verdict::Discard("harness error".into())
+        }
         Err(Problem::Db(e)) => Verdict::fail("worker-died", json!({"error": e.to_string()})),
         Err(Problem::Unexpected(s)) => Verdict::fail("unexpected-response", json!({"what": s})),
     }
